@@ -1,7 +1,7 @@
 (* Termination of constrain and restrict: with fuel above three times the number of variable levels they yield no result
    only if the node table filled up on the way. *)
 From Coq Require Import NArith Bool Lia List.
-Require Import Canon SemTk BddBase BddIte BddCR BddSat BddCof BddTerm.
+Require Import Canon SemTk BddBase BddIte BddCR BddSat BddCof BddCof2 BddCtor BddPaths BddReach BddExport BddEval BddTerm.
 Import ListNotations.
 Local Open Scope N_scope.
 
@@ -75,6 +75,50 @@ Section Term2.
   Qed.
   Print Assumptions constrain_terminates.
 
+  (* above the bound one unit of fuel less gives the same result (with FuelMono: the fuel is immaterial there) *)
+  Theorem constrain_down L : forall n k, (n + 1 <= k)%nat ->
+    forall s f g tf tg r, Inv s -> CInv s -> V s f tf -> V s g tg -> allle L tf -> allle L tg ->
+    (mu2 L tf tg <= n)%nat -> constrain (S k) s f g = Some r -> constrain k s f g = Some r.
+  Proof.
+    induction n as [|n IH]; intros k Hk s f g tf tg r HI HC Vf Vg Lf Lg Hmu H; (destruct k as [|k]; [lia|]).
+    all: remember (S k) as k1 eqn:Ek1; cbn [constrain] in H; rewrite Ek1; cbn [constrain].
+    all: destruct (is_zero g) eqn:G0; [exact H|]; destruct (is_one g) eqn:G1; [exact H|].
+    all: destruct (is_term f) eqn:F0; [exact H|].
+    all: destruct (ref_eqb f g); [exact H|]; destruct (ref_eqb f (rneg g)); [exact H|].
+    all: destruct (cget s (KConstrain f g)); [exact H|].
+    all: assert (Hfn : idx f <> 1) by (unfold is_term in F0; rewrite term_idx in F0; now apply N.eqb_neq).
+    all: assert (Hgn : idx g <> 1) by (apply nonterm_of; assumption).
+    all: destruct (min_top_is_minlev L s f g tf tg HI Vf Vg Hfn Hgn Lf Lg) as (Emin & HvL & Hv0 & Hvf & Hvg).
+    - exfalso. unfold mu2 in Hmu. rewrite <- Emin in Hmu. lia.
+    - set (v := N.min (top s f) (top s g)) in *.
+      destruct (top_cofactors s f v) as [f0 f1] eqn:T1. destruct (top_cofactors s g v) as [g0 g1] eqn:T2.
+      destruct (tc_shape s f v tf f0 f1 HI Vf (or_intror Hvf) T1) as (a0 & a1 & Va0 & Va1 & Aa0 & Aa1 & Sa).
+      destruct (tc_shape s g v tg g0 g1 HI Vg (or_intror Hvg) T2) as (b0 & b1 & Vb0 & Vb1 & Ab0 & Ab1 & Sb).
+      destruct (lev_child L v tf a0 a1 Lf HvL Aa0 Aa1 Sa) as (La0 & La1 & Ea0 & Ea1).
+      destruct (lev_child L v tg b0 b1 Lg HvL Ab0 Ab1 Sb) as (Lb0 & Lb1 & Eb0 & Eb1).
+      assert (M00 : (mu2 L a0 b0 <= n)%nat) by (unfold mu2 in *; rewrite <- Emin in Hmu; lia).
+      assert (M11 : (mu2 L a1 b1 <= n)%nat) by (unfold mu2 in *; rewrite <- Emin in Hmu; lia).
+      assert (Hk' : (n + 1 <= k)%nat) by lia.
+      destruct (is_zero g1); [rewrite Ek1 in H; exact (IH k Hk' s f0 g0 a0 b0 r HI HC Va0 Vb0 La0 Lb0 M00 H)|].
+      destruct (is_zero g0); [rewrite Ek1 in H; exact (IH k Hk' s f1 g1 a1 b1 r HI HC Va1 Vb1 La1 Lb1 M11 H)|].
+      destruct (ref_eqb_spec f0 f1) as [Eq|Ne].
+      + destruct (tc_ok s f v tf HI Vf (or_intror Hvf) f0 f1 T1) as (x0 & x1 & _ & _ & _ & _ & _ & _ & _ & Hsame & _ & _).
+        destruct (Hsame Eq) as (_ & _ & _ & Hab).
+        assert (Hlf : v + 1 <= lev L tf) by (destruct tf; cbn in *; [lia|destruct Hab; lia]).
+        assert (M0 : (mu2 L tf b0 <= n)%nat) by (unfold mu2 in *; rewrite <- Emin in Hmu; lia).
+        assert (M1 : (mu2 L tf b1 <= n)%nat) by (unfold mu2 in *; rewrite <- Emin in Hmu; lia).
+        destruct (constrain k1 s f g0) as [[s1 lo]|] eqn:C0; [|discriminate H]. rewrite Ek1 in C0.
+        rewrite (IH k Hk' s f g0 tf b0 (s1, lo) HI HC Vf Vb0 Lf Lb0 M0 C0).
+        destruct (constrain_ok _ _ _ _ _ _ _ _ HI HC C0 Vf Vb0) as (HI1 & HC1 & E1 & _).
+        destruct (constrain k1 s1 f g1) as [[s2 hi]|] eqn:C1; [|discriminate H]. rewrite Ek1 in C1.
+        rewrite (IH k Hk' s1 f g1 tf b1 (s2, hi) HI1 HC1 (V_ext _ _ _ _ E1 Vf) (V_ext _ _ _ _ E1 Vb1) Lf Lb1 M1 C1). exact H.
+      + destruct (constrain k1 s f0 g0) as [[s1 lo]|] eqn:C0; [|discriminate H]. rewrite Ek1 in C0.
+        rewrite (IH k Hk' s f0 g0 a0 b0 (s1, lo) HI HC Va0 Vb0 La0 Lb0 M00 C0).
+        destruct (constrain_ok _ _ _ _ _ _ _ _ HI HC C0 Va0 Vb0) as (HI1 & HC1 & E1 & _).
+        destruct (constrain k1 s1 f1 g1) as [[s2 hi]|] eqn:C1; [|discriminate H]. rewrite Ek1 in C1.
+        rewrite (IH k Hk' s1 f1 g1 a1 b1 (s2, hi) HI1 HC1 (V_ext _ _ _ _ E1 Va1) (V_ext _ _ _ _ E1 Vb1) La1 Lb1 M11 C1). exact H.
+  Qed.
+
   (* level bounds through the variable-set interface of the ITE postcondition *)
   Definition upto (L : N) : list N := map N.of_nat (List.seq 0%nat (S (N.to_nat L))).
   Lemma in_upto L w : In w (upto L) <-> w <= L.
@@ -141,6 +185,55 @@ Section Term2.
   Qed.
   Print Assumptions restrict_terminates.
 
+  Theorem restrict_down L : forall n k, (3 * n + 4 <= k)%nat ->
+    forall s f g tf tg r, Inv s -> CInv s -> V s f tf -> V s g tg -> allle L tf -> allle L tg ->
+    (mu2 L tf tg <= n)%nat -> restrict (S k) s f g = Some r -> restrict k s f g = Some r.
+  Proof.
+    induction n as [|n IH]; intros k Hk s f g tf tg r HI HC Vf Vg Lf Lg Hmu H; (destruct k as [|k]; [lia|]).
+    all: remember (S k) as k1 eqn:Ek1; cbn [restrict] in H; rewrite Ek1; cbn [restrict].
+    all: destruct (is_zero g) eqn:G0; [exact H|]; destruct (is_one g) eqn:G1; [exact H|]; cbn [orb] in *.
+    all: destruct (is_term f) eqn:F0; [exact H|].
+    all: destruct (ref_eqb f g); [exact H|]; destruct (ref_eqb f (rneg g)); [exact H|].
+    all: destruct (cget s (KRestrict f g)); [exact H|].
+    all: assert (Hfn : idx f <> 1) by (unfold is_term in F0; rewrite term_idx in F0; now apply N.eqb_neq).
+    all: assert (Hgn : idx g <> 1) by (apply nonterm_of; assumption).
+    all: destruct (min_top_is_minlev L s f g tf tg HI Vf Vg Hfn Hgn Lf Lg) as (Emin & HvL & Hv0 & Hvf & Hvg).
+    - exfalso. unfold mu2 in Hmu. rewrite <- Emin in Hmu. lia.
+    - set (v := N.min (top s f) (top s g)) in *.
+      destruct (top_cofactors s f v) as [f0 f1] eqn:T1. destruct (top_cofactors s g v) as [g0 g1] eqn:T2.
+      destruct (tc_shape s f v tf f0 f1 HI Vf (or_intror Hvf) T1) as (a0 & a1 & Va0 & Va1 & Aa0 & Aa1 & Sa).
+      destruct (tc_shape s g v tg g0 g1 HI Vg (or_intror Hvg) T2) as (b0 & b1 & Vb0 & Vb1 & Ab0 & Ab1 & Sb).
+      destruct (lev_child L v tf a0 a1 Lf HvL Aa0 Aa1 Sa) as (La0 & La1 & Ea0 & Ea1).
+      destruct (lev_child L v tg b0 b1 Lg HvL Ab0 Ab1 Sb) as (Lb0 & Lb1 & Eb0 & Eb1).
+      assert (M00 : (mu2 L a0 b0 <= n)%nat) by (unfold mu2 in *; rewrite <- Emin in Hmu; lia).
+      assert (M11 : (mu2 L a1 b1 <= n)%nat) by (unfold mu2 in *; rewrite <- Emin in Hmu; lia).
+      assert (Hk' : (3 * n + 4 <= k)%nat) by lia.
+      destruct (is_zero g1); [rewrite Ek1 in H; exact (IH k Hk' s f0 g0 a0 b0 r HI HC Va0 Vb0 La0 Lb0 M00 H)|].
+      destruct (is_zero g0); [rewrite Ek1 in H; exact (IH k Hk' s f1 g1 a1 b1 r HI HC Va1 Vb1 La1 Lb1 M11 H)|].
+      destruct (N.eqb_spec v (top s f)) as [Ev|Nv].
+      + destruct (restrict k1 s f0 g0) as [[s1 lo]|] eqn:C0; [|discriminate H]. rewrite Ek1 in C0.
+        rewrite (IH k Hk' s f0 g0 a0 b0 (s1, lo) HI HC Va0 Vb0 La0 Lb0 M00 C0).
+        destruct (restrict_ok _ _ _ _ _ _ _ _ HI HC C0 Va0 Vb0) as (HI1 & HC1 & E1 & _).
+        destruct (restrict k1 s1 f1 g1) as [[s2 hi]|] eqn:C1; [|discriminate H]. rewrite Ek1 in C1.
+        rewrite (IH k Hk' s1 f1 g1 a1 b1 (s2, hi) HI1 HC1 (V_ext _ _ _ _ E1 Va1) (V_ext _ _ _ _ E1 Vb1) La1 Lb1 M11 C1). exact H.
+      + assert (Hlt : v < top s f) by lia.
+        assert (Hab : above v tf).
+        { destruct (tc_ok s f v tf HI Vf (or_intror Hvf) f0 f1 T1) as (z0 & z1 & _ & _ & Az0 & _ & _ & _ & _ & _ & Hleaf & _).
+          destruct (Hleaf (or_intror Hlt)) as (_ & _ & E0 & _). subst z0. exact Az0. }
+        assert (Hlf : v + 1 <= lev L tf) by (apply above_lev; [exact Hab|lia]).
+        assert (Mi : (mu L b1 Leaf b0 <= n)%nat).
+        { unfold mu. cbn [lev]. unfold mu2 in Hmu. rewrite <- Emin in Hmu. lia. }
+        destruct (ite k1 s g1 one g0) as [[s1 gg]|] eqn:I1; [|discriminate H]. rewrite Ek1 in I1.
+        rewrite (ite_down L n k ltac:(lia) s g1 one g0 b1 Leaf b0 (s1, gg) HI HC Vb1 (V_one s) Vb0 Lb1 I Lb0 Mi I1).
+        destruct (ite_ok _ _ _ _ _ _ _ _ _ _ HI HC I1 Vb1 (V_one s) Vb0) as (HI1 & HC1 & E1 & tgg & Vgg & _ & Habove & Hvars).
+        assert (Agg : above v tgg) by (apply Habove; cbn; auto).
+        assert (Lgg : allle L tgg) by (apply tvars_to_allle; apply Hvars; [apply allle_to_tvars; exact Lb1|exact I|apply allle_to_tvars; exact Lb0]).
+        assert (Mr : (mu2 L tf tgg <= n)%nat).
+        { pose proof (above_lev L v tgg Agg ltac:(lia)). unfold mu2 in *. rewrite <- Emin in Hmu. lia. }
+        destruct (restrict k1 s1 f gg) as [[s2 r2]|] eqn:C1; [|discriminate H]. rewrite Ek1 in C1.
+        rewrite (IH k Hk' s1 f gg tf tgg (s2, r2) HI1 HC1 (V_ext _ _ _ _ E1 Vf) Vgg Lf Lgg Mr C1). exact H.
+  Qed.
+
   (* ---------- substitute: fuel above the height of the diagram ---------- *)
   Context {MS : Memo ref ref}.
   Theorem subst_terminates v b : forall tf k s m f, (height tf + 1 <= k)%nat -> Inv s -> SMInv s v b m -> V s f tf ->
@@ -167,6 +260,28 @@ Section Term2.
       apply (Stops_back s s2 (sext_trans _ _ _ E1 E2)). eapply mk_node_total; eauto.
   Qed.
   Print Assumptions subst_terminates.
+
+  Theorem subst_down v b : forall tf k s m f r, (height tf + 1 <= k)%nat -> Inv s -> SMInv s v b m -> V s f tf ->
+    subst (S k) s m f v b = Some r -> subst k s m f v b = Some r.
+  Proof.
+    induction tf as [|vi ln tl IHl th IHh]; intros k s m f r Hk HI HM Vf H; (destruct k as [|k]; [lia|]).
+    all: remember (S k) as k1 eqn:Ek1; cbn [subst] in H; rewrite Ek1; cbn [subst].
+    - destruct (top_leaf _ _ HI Vf) as [_ Ei].
+      assert (Ht : is_term f = true) by (unfold is_term; rewrite term_idx; now apply N.eqb_eq). rewrite Ht in *. exact H.
+    - destruct (is_term f); [exact H|].
+      destruct (lh_ok _ _ _ _ _ _ HI Vf) as (Vl & Vh & Al & Ah & Hv0 & Ht & Sf). rewrite Ht in *.
+      destruct (v <? vi); [exact H|]. destruct (v =? vi); [exact H|]. destruct (mget m f); [exact H|].
+      cbn [height] in Hk.
+      destruct (subst k1 s m (low_node s f) v b) as [[[s1 m1] l']|] eqn:H1; [|discriminate H]. rewrite Ek1 in H1.
+      rewrite (IHl k s m (low_node s f) _ ltac:(lia) HI HM Vl H1).
+      destruct (subst_ok v b _ _ _ _ _ _ _ _ HI HM Vl H1) as (HI1 & E1 & _ & HM1 & _).
+      assert (Eh : high_node s1 f = high_node s f).
+      { unfold high_node. destruct Vf as (HR & _). apply Rep_nd_inv in HR. destruct HR as (_ & l & h & Hc & _).
+        rewrite Hc, (E1 _ _ Hc). reflexivity. }
+      rewrite Eh in *.
+      destruct (subst k1 s1 m1 (high_node s f) v b) as [[[s2 m2] h']|] eqn:H2; [|discriminate H]. rewrite Ek1 in H2.
+      rewrite (IHh k s1 m1 (high_node s f) _ ltac:(lia) HI1 HM1 (V_ext _ _ _ _ E1 Vh) H2). exact H.
+  Qed.
 
   (* ---------- compose: three times the number of variable levels ---------- *)
   Context {MC : Memo (ref * ref) ref}.
@@ -218,4 +333,447 @@ Section Term2.
         apply (Stops_back s s2 (sext_trans _ _ _ E1 E2)). eapply mk_node_total; eauto.
   Qed.
   Print Assumptions compose_terminates.
+
+  Theorem compose_down v L : forall n k, (3 * n + 4 <= k)%nat ->
+    forall s m f g tf tg r, Inv s -> CInv s -> KMInv s v m -> V s f tf -> V s g tg -> allle L tf -> allle L tg ->
+    (mu2 L tf tg <= n)%nat -> compose (S k) s m f v g = Some r -> compose k s m f v g = Some r.
+  Proof.
+    induction n as [|n IH]; intros k Hk s m f g tf tg r HI HC HM Vf Vg Lf Lg Hmu H; (destruct k as [|k]; [lia|]).
+    all: remember (S k) as k1 eqn:Ek1; cbn [compose] in H; rewrite Ek1; cbn [compose].
+    all: destruct (is_term f) eqn:F0; [exact H|].
+    all: assert (Hfn : idx f <> 1) by (unfold is_term in F0; rewrite term_idx in F0; now apply N.eqb_neq).
+    all: destruct tf as [|vi ln tl th]; [destruct (top_leaf _ _ HI Vf); contradiction|].
+    all: destruct (lh_ok _ _ _ _ _ _ HI Vf) as (Vl & Vh & Al & Ah & Hv0 & Ht & Sf); rewrite Ht in *.
+    all: destruct (v <? vi); [exact H|]; destruct (mget m (f, g)); [exact H|].
+    all: pose proof Lf as (HviL & Ltl & Lth).
+    - exfalso. unfold mu2 in Hmu. cbn [lev] in Hmu. lia.
+    - assert (Hlg : lev L tg <= L + 1) by (destruct tg; cbn in *; lia).
+      destruct (v =? vi).
+      + destruct (V_children _ _ _ _ _ _ Vf) as (l & h & Hc & -> & Hreg & Vrl & Vrh & _ & _ & _).
+        rewrite Hc in *. cbn [hi lo] in *.
+        assert (Mi : (mu L tg th tl <= S n)%nat).
+        { pose proof (above_lev L vi tl Al ltac:(lia)). pose proof (above_lev L vi th Ah ltac:(lia)).
+          unfold mu. unfold mu2 in Hmu. cbn [lev] in Hmu. lia. }
+        destruct (ite k1 s g h l) as [[s1 r1]|] eqn:Hi; [|discriminate H]. rewrite Ek1 in Hi.
+        rewrite (ite_down L (S n) k ltac:(lia) s g h l tg th tl (s1, r1) HI HC Vg Vrh Vrl Lg Lth Ltl Mi Hi). exact H.
+      + set (mm := if is_term g then vi else N.min vi (top s g)) in *.
+        assert (Hmm : mm = N.min vi (lev L tg) /\ mm <= L /\ mm <= vi /\ (tg = Leaf \/ mm <= top s g)).
+        { unfold mm. destruct (is_term g) eqn:G0.
+          - assert (Eg : idx g = 1) by (unfold is_term in G0; rewrite term_idx in G0; now apply N.eqb_eq).
+            pose proof (V_term _ _ _ Eg Vg) as ->. cbn [lev]. splits; auto; try lia.
+          - assert (Hgn : idx g <> 1) by (unfold is_term in G0; rewrite term_idx in G0; now apply N.eqb_neq).
+            destruct (top_cases _ _ _ HI Vg) as [(_ & _ & E)|(vj & ? & ? & ? & -> & Ej & Hvj & _)]; [contradiction|].
+            destruct Lg as (Hgj & _). cbn [lev]. rewrite Ej. splits; lia. }
+        destruct Hmm as (Emm & HmL & Hmvi & Hmg).
+        destruct (top_cofactors s f mm) as [f0 f1] eqn:T1. destruct (top_cofactors s g mm) as [g0 g1] eqn:T2.
+        assert (Hmf : Nd vi ln tl th = Leaf \/ mm <= top s f) by (right; rewrite Ht; exact Hmvi).
+        destruct (tc_shape s f mm _ f0 f1 HI Vf Hmf T1) as (a0 & a1 & Va0 & Va1 & Aa0 & Aa1 & Sa).
+        destruct (tc_shape s g mm tg g0 g1 HI Vg Hmg T2) as (b0 & b1 & Vb0 & Vb1 & Ab0 & Ab1 & Sb).
+        destruct (lev_child L mm _ a0 a1 Lf HmL Aa0 Aa1 Sa) as (La0 & La1 & Ea0 & Ea1).
+        destruct (lev_child L mm tg b0 b1 Lg HmL Ab0 Ab1 Sb) as (Lb0 & Lb1 & Eb0 & Eb1).
+        assert (M00 : (mu2 L a0 b0 <= n)%nat) by (unfold mu2 in *; cbn [lev] in Hmu; lia).
+        assert (M11 : (mu2 L a1 b1 <= n)%nat) by (unfold mu2 in *; cbn [lev] in Hmu; lia).
+        assert (Hk' : (3 * n + 4 <= k)%nat) by lia.
+        destruct (compose k1 s m f0 v g0) as [[[s1 m1] h0]|] eqn:C0; [|discriminate H]. rewrite Ek1 in C0.
+        rewrite (IH k Hk' s m f0 g0 a0 b0 _ HI HC HM Va0 Vb0 La0 Lb0 M00 C0).
+        destruct (compose_ok v _ _ _ _ _ _ _ _ _ _ HI HC HM Va0 Vb0 C0) as (HI1 & HC1 & E1 & HM1 & _).
+        destruct (compose k1 s1 m1 f1 v g1) as [[[s2 m2] h1]|] eqn:C1; [|discriminate H]. rewrite Ek1 in C1.
+        rewrite (IH k Hk' s1 m1 f1 g1 a1 b1 _ HI1 HC1 HM1 (V_ext _ _ _ _ E1 Va1) (V_ext _ _ _ _ E1 Vb1) La1 Lb1 M11 C1). exact H.
+  Qed.
+
+  (* ---------- queries that walk one diagram: they allocate nothing, so with fuel above its height they always return ---------- *)
+  Lemma leaf_terminal s r : Inv s -> V s r Leaf -> is_one r || is_zero r = true.
+  Proof. intros HI HV. destruct (top_leaf _ _ HI HV) as [_ Ei]. rewrite term_idx. now apply N.eqb_eq. Qed.
+
+  Context {MN : Memo ref N}.
+  Theorem satc_returns max : forall t k s m r, (height t + 1 <= k)%nat -> Inv s -> V s r t -> satc k s m r max <> None.
+  Proof.
+    induction t as [|v ln tl IHl th IHh]; intros k s m r Hk HI HV; (destruct k as [|k]; [lia|]); cbn [satc].
+    - pose proof (leaf_terminal s r HI HV) as Ht. destruct (is_zero r); [discriminate|]. destruct (is_one r); [discriminate|discriminate Ht].
+    - destruct (is_zero r); [discriminate|]. destruct (is_one r); [discriminate|]. destruct (mget m r); [discriminate|].
+      destruct (V_children _ _ _ _ _ _ HV) as (l & h & Hc & _ & _ & Vl & Vh & _). rewrite Hc. cbn [lo hi].
+      cbn [height] in Hk.
+      pose proof (IHl k s m l ltac:(lia) HI Vl) as H1. destruct (satc k s m l max) as [[m1 cl]|]; [|contradiction].
+      pose proof (IHh k s m1 h ltac:(lia) HI Vh) as H2. destruct (satc k s m1 h max) as [[m2 ch]|]; [|contradiction]. discriminate.
+  Qed.
+
+  Theorem one_sat_returns : forall t k s r p, (height t + 1 <= k)%nat -> Inv s -> V s r t -> one_sat k s r p <> None.
+  Proof.
+    induction t as [|v ln tl IHl th IHh]; intros k s r p Hk HI HV; (destruct k as [|k]; [lia|]); cbn [one_sat].
+    - pose proof (leaf_terminal s r HI HV) as Ht. destruct (is_zero r); [discriminate|]. destruct (is_one r); [discriminate|discriminate Ht].
+    - destruct (is_zero r); [discriminate|]. destruct (is_one r); [discriminate|].
+      destruct (lh_ok _ _ _ _ _ _ HI HV) as (Vl & Vh & _). cbn [height] in Hk.
+      pose proof (IHh k s (high_node s r) (p ++ [(top s r, true)]) ltac:(lia) HI Vh) as H1.
+      destruct (one_sat k s (high_node s r) (p ++ [(top s r, true)])) as [[res|]|]; [discriminate| |contradiction].
+      exact (IHl k s (low_node s r) (p ++ [(top s r, false)]) ltac:(lia) HI Vl).
+  Qed.
+
+  Theorem to_bracket_returns : forall t k s r vis, (height t + 1 <= k)%nat -> Inv s -> V s r t -> to_bracket k s r vis <> None.
+  Proof.
+    induction t as [|v ln tl IHl th IHh]; intros k s r vis Hk HI HV; (destruct k as [|k]; [lia|]); cbn [to_bracket].
+    - pose proof (leaf_terminal s r HI HV) as Ht. destruct (is_zero r); [discriminate|]. destruct (is_one r); [discriminate|discriminate Ht].
+    - destruct (is_zero r); [discriminate|]. destruct (is_one r); [discriminate|]. destruct (memN (idx r) vis); [discriminate|].
+      destruct (V_children _ _ _ _ _ _ HV) as (l & h & Hc & _ & _ & Vl & Vh & _). rewrite Hc. cbn [lo hi var].
+      cbn [height] in Hk.
+      pose proof (IHh k s h (idx r :: vis) ltac:(lia) HI Vh) as H1. destruct (to_bracket k s h (idx r :: vis)) as [[tk1 vis1]|]; [|contradiction].
+      pose proof (IHl k s l vis1 ltac:(lia) HI Vl) as H2. destruct (to_bracket k s l vis1) as [[tk2 vis2]|]; [|contradiction]. discriminate.
+  Qed.
+
+  (* ---------- descendants (breadth-first search): fuel three times the number of stored cells plus the queue ---------- *)
+  Definition unv (univ visited : list N) : nat := length (filter (fun j => negb (memN j visited)) univ).
+  Lemma unv_shrink univ visited i : In i univ -> memN i visited = false -> (unv univ (i :: visited) < unv univ visited)%nat.
+  Proof.
+    unfold unv. induction univ as [|a u IH]; intros Hin Hm; [destruct Hin|]. cbn [filter].
+    assert (Hle : forall l, (length (filter (fun j => negb (memN j (i :: visited))) l) <= length (filter (fun j => negb (memN j visited)) l))%nat).
+    { induction l as [|b l IHl]; cbn [filter]; [lia|]. unfold memN at 1. cbn [existsb]. fold (memN b visited).
+      destruct (N.eqb b i); cbn [orb negb]; destruct (memN b visited); cbn [negb length]; lia. }
+    destruct Hin as [->|Hin].
+    - unfold memN at 1. cbn [existsb]. rewrite N.eqb_refl. cbn [orb negb]. rewrite Hm. cbn [negb length]. specialize (Hle u). lia.
+    - specialize (IH Hin Hm). unfold memN at 1. cbn [existsb]. fold (memN a visited).
+      destruct (N.eqb a i); cbn [orb negb]; destruct (memN a visited); cbn [negb length]; try lia. all: specialize (Hle u); lia.
+  Qed.
+  Lemma unv_le univ visited : (unv univ visited <= length univ)%nat.
+  Proof. unfold unv. induction univ as [|a u IH]; cbn [filter length]; [lia|]. destruct (negb (memN a visited)); cbn [length]; lia. Qed.
+  Theorem bfs_returns univ : forall fuel s visited queue, closed s -> In 1 visited ->
+    (forall i n, cell s i = Some n -> In i univ) -> (forall i, In i queue -> okidx s i) ->
+    (3 * unv univ visited + length queue + 1 <= fuel)%nat -> bfs fuel s visited queue <> None.
+  Proof.
+    induction fuel as [|fuel IH]; intros s visited queue Hcl H1 Hu Hq Hf; [lia|]. cbn [bfs].
+    destruct queue as [|i q]; [discriminate|]. cbn [length] in Hf.
+    destruct (memN i visited) eqn:Hm.
+    - apply IH; auto; [intros j Hj; apply Hq; right; exact Hj|lia].
+    - destruct (Hq i (or_introl eq_refl)) as [->|(n & Hc)].
+      + apply memN_spec in H1. congruence.
+      + rewrite Hc. pose proof (unv_shrink univ visited i (Hu _ _ Hc) Hm) as Hs.
+        apply IH; auto.
+        * right; exact H1.
+        * intros j Hj. apply in_app_or in Hj. destruct Hj as [Hj|[<-|[<-|[]]]]; [apply Hq; right; exact Hj| |].
+          -- apply (Hcl i). exists n. auto.
+          -- apply (Hcl i). exists n. auto.
+        * rewrite app_length. cbn [length]. lia.
+  Qed.
+
+  (* ---------- the paths iterator: fuel above the weight of the pending stack (tree size: the number of paths is its running time) ---------- *)
+  Fixpoint wt (t : tree) : nat := match t with Leaf => 1 | Nd _ _ l h => S (wt l + wt h) end.
+  Definition W (ts : list tree) : nat := fold_right (fun t a => (wt t + a)%nat) O ts.
+  Definition SOK (s : st) (stack : list (ref * path)) (ts : list tree) : Prop := Forall2 (fun x t => V s (fst x) t) stack ts.
+  Lemma pnext_progress : forall fuel s stack ts, Inv s -> SOK s stack ts -> (W ts + 1 <= fuel)%nat ->
+    exists o stack' ts', pnext fuel s stack = Some (o, stack') /\ SOK s stack' ts' /\ (W ts' <= W ts)%nat /\ (o <> None -> (W ts' < W ts)%nat).
+  Proof.
+    induction fuel as [|fuel IH]; intros s stack ts HI HS Hf; [lia|]. cbn [pnext].
+    destruct HS as [|[node p] t rest ts' Hx Hrest].
+    - exists None, [], []. splits; auto; [constructor|congruence].
+    - cbn [fst] in Hx. cbn [W fold_right] in Hf. fold (W ts') in Hf.
+      assert (Hw : (1 <= wt t)%nat) by (destruct t; cbn; lia).
+      destruct (is_zero node) eqn:Z.
+      { destruct (IH s rest ts' HI Hrest ltac:(lia)) as (o & st' & ts2 & E & S2 & Wle & Wlt).
+        exists o, st', ts2. splits; auto; cbn [W fold_right]; fold (W ts'); [lia|intro Ho; specialize (Wlt Ho); lia]. }
+      destruct (is_one node) eqn:O1.
+      { exists (Some p), rest, ts'. splits; auto; cbn [W fold_right]; fold (W ts'); lia. }
+      destruct t as [|v ln tl th].
+      { pose proof (leaf_terminal s node HI Hx) as Ht. rewrite O1, Z in Ht. discriminate Ht. }
+      destruct (lh_ok _ _ _ _ _ _ HI Hx) as (Vl & Vh & _).
+      destruct (IH s ((low_node s node, p ++ [(top s node, false)]) :: (high_node s node, p ++ [(top s node, true)]) :: rest) (tl :: th :: ts') HI) as (o & st' & ts2 & E & S2 & Wle & Wlt).
+      { constructor; [exact Vl|]. constructor; [exact Vh|exact Hrest]. }
+      { cbn [W fold_right wt] in *. fold (W ts') in *. lia. }
+      exists o, st', ts2. splits; auto; cbn [W fold_right wt] in *; fold (W ts') in *; [lia|intro Ho; specialize (Wlt Ho); lia].
+  Qed.
+  Theorem pall_returns : forall n fuel s stack ts, Inv s -> SOK s stack ts -> (W ts + 1 <= n)%nat -> (W ts + 1 <= fuel)%nat ->
+    pall n fuel s stack <> None.
+  Proof.
+    induction n as [|n IH]; intros fuel s stack ts HI HS Hn Hf; [lia|]. cbn [pall].
+    destruct (pnext_progress fuel s stack ts HI HS Hf) as (o & st' & ts2 & E & S2 & Wle & Wlt). rewrite E.
+    destruct o as [p|]; [|discriminate].
+    specialize (Wlt ltac:(discriminate)).
+    pose proof (IH fuel s st' ts2 HI S2 ltac:(lia) ltac:(lia)) as H. destruct (pall n fuel s st'); [discriminate|contradiction].
+  Qed.
+
+  (* ---------- substitute_multi and cofactor_cube ---------- *)
+  Theorem smulti_terminates vl : forall tf k s m f, (height tf + 1 <= k)%nat -> Inv s -> MMInv s vl m -> V s f tf ->
+    smulti k s m f vl = None -> Stops s.
+  Proof.
+    induction tf as [|vi ln tl IHl th IHh]; intros k s m f Hk HI HM Vf; (destruct k as [|k]; [lia|]); cbn [smulti].
+    - destruct (top_leaf _ _ HI Vf) as [_ Ei].
+      assert (Ht : is_term f = true) by (unfold is_term; rewrite term_idx; now apply N.eqb_eq). rewrite Ht. disc.
+    - destruct (is_term f); [disc|]. destruct vl as [|x vl']; [disc|]. destruct (mget m f); [disc|].
+      destruct (lh_ok _ _ _ _ _ _ HI Vf) as (Vl & Vh & Al & Ah & Hv0 & Ht & Sf). rewrite Ht. cbn [height] in Hk.
+      destruct (vget (x :: vl') vi) as [b|].
+      + destruct b.
+        * destruct (smulti k s m (high_node s f) (x :: vl')) as [[[s1 m1] r]|] eqn:H1; [disc|]. intros _.
+          exact (IHh k s m (high_node s f) ltac:(lia) HI HM Vh H1).
+        * destruct (smulti k s m (low_node s f) (x :: vl')) as [[[s1 m1] r]|] eqn:H1; [disc|]. intros _.
+          exact (IHl k s m (low_node s f) ltac:(lia) HI HM Vl H1).
+      + destruct (smulti k s m (low_node s f) (x :: vl')) as [[[s1 m1] l']|] eqn:H1;
+          [|intros _; exact (IHl k s m (low_node s f) ltac:(lia) HI HM Vl H1)].
+        destruct (smulti_ok _ _ _ _ _ _ _ _ _ HI HM Vl H1) as (HI1 & E1 & _ & HM1 & _).
+        assert (Eh : high_node s1 f = high_node s f).
+        { unfold high_node. destruct Vf as (HR & _). apply Rep_nd_inv in HR. destruct HR as (_ & l & h & Hc & _).
+          rewrite Hc, (E1 _ _ Hc). reflexivity. }
+        rewrite Eh.
+        destruct (smulti k s1 m1 (high_node s f) (x :: vl')) as [[[s2 m2] h']|] eqn:H2;
+          [|intros _; apply (Stops_back s s1 E1); exact (IHh k s1 m1 (high_node s f) ltac:(lia) HI1 HM1 (V_ext _ _ _ _ E1 Vh) H2)].
+        destruct (smulti_ok _ _ _ _ _ _ _ _ _ HI1 HM1 (V_ext _ _ _ _ E1 Vh) H2) as (HI2 & E2 & _).
+        destruct (mk_node s2 vi l' h') as [[s3 r3]|] eqn:Hmk; [disc|]. intros _.
+        apply (Stops_back s s2 (sext_trans _ _ _ E1 E2)). eapply mk_node_total; eauto.
+  Qed.
+
+  Theorem smulti_down vl : forall tf k s m f r, (height tf + 1 <= k)%nat -> Inv s -> MMInv s vl m -> V s f tf ->
+    smulti (S k) s m f vl = Some r -> smulti k s m f vl = Some r.
+  Proof.
+    induction tf as [|vi ln tl IHl th IHh]; intros k s m f r Hk HI HM Vf H; (destruct k as [|k]; [lia|]).
+    all: remember (S k) as k1 eqn:Ek1; cbn [smulti] in H; rewrite Ek1; cbn [smulti].
+    - destruct (top_leaf _ _ HI Vf) as [_ Ei].
+      assert (Ht : is_term f = true) by (unfold is_term; rewrite term_idx; now apply N.eqb_eq). rewrite Ht in *. exact H.
+    - destruct (is_term f); [exact H|]. destruct vl as [|x vl']; [exact H|]. destruct (mget m f); [exact H|].
+      destruct (lh_ok _ _ _ _ _ _ HI Vf) as (Vl & Vh & Al & Ah & Hv0 & Ht & Sf). rewrite Ht in *. cbn [height] in Hk.
+      destruct (vget (x :: vl') vi) as [b|].
+      + destruct b.
+        * destruct (smulti k1 s m (high_node s f) (x :: vl')) as [[[s1 m1] r1]|] eqn:H1; [|discriminate H]. rewrite Ek1 in H1.
+          rewrite (IHh k s m (high_node s f) _ ltac:(lia) HI HM Vh H1). exact H.
+        * destruct (smulti k1 s m (low_node s f) (x :: vl')) as [[[s1 m1] r1]|] eqn:H1; [|discriminate H]. rewrite Ek1 in H1.
+          rewrite (IHl k s m (low_node s f) _ ltac:(lia) HI HM Vl H1). exact H.
+      + destruct (smulti k1 s m (low_node s f) (x :: vl')) as [[[s1 m1] l']|] eqn:H1; [|discriminate H]. rewrite Ek1 in H1.
+        rewrite (IHl k s m (low_node s f) _ ltac:(lia) HI HM Vl H1).
+        destruct (smulti_ok _ _ _ _ _ _ _ _ _ HI HM Vl H1) as (HI1 & E1 & _ & HM1 & _).
+        assert (Eh : high_node s1 f = high_node s f).
+        { unfold high_node. destruct Vf as (HR & _). apply Rep_nd_inv in HR. destruct HR as (_ & l & h & Hc & _).
+          rewrite Hc, (E1 _ _ Hc). reflexivity. }
+        rewrite Eh in *.
+        destruct (smulti k1 s1 m1 (high_node s f) (x :: vl')) as [[[s2 m2] h']|] eqn:H2; [|discriminate H]. rewrite Ek1 in H2.
+        rewrite (IHh k s1 m1 (high_node s f) _ ltac:(lia) HI1 HM1 (V_ext _ _ _ _ E1 Vh) H2). exact H.
+  Qed.
+
+  Context {MQ : Memo (nat * ref) ref}.
+  Theorem ccube_terminates c0 : forall n k, (n + 1 <= k)%nat -> forall s m f cube tf lb,
+    (height tf + length cube <= n)%nat -> Inv s -> QMInv s c0 m -> V s f tf -> (exists pre, c0 = pre ++ cube) -> asc_cube lb cube ->
+    ccube k s m f cube = None -> Stops s.
+  Proof.
+    induction n as [|n IH]; intros k Hk s m f cube tf lb Hm HI HM Vf Hsuf Hasc; (destruct k as [|k]; [lia|]); cbn [ccube].
+    all: destruct cube as [|[u b] rest]; [disc|].
+    - cbn [length] in Hm. lia.
+    - destruct (is_term f) eqn:F0; [disc|].
+      assert (Hfn : idx f <> 1) by (unfold is_term in F0; rewrite term_idx in F0; now apply N.eqb_neq).
+      destruct tf as [|vi ln tl th]; [destruct (top_leaf _ _ HI Vf); contradiction|].
+      destruct (mget m (length ((u, b) :: rest), f)); [disc|].
+      destruct (lh_ok _ _ _ _ _ _ HI Vf) as (Vl & Vh & Al & Ah & Hv0 & Ht & Sf). rewrite Ht.
+      cbn [height length] in Hm. destruct Hasc as [Hlu Hasc'].
+      assert (Hsuf' : exists pre, c0 = pre ++ rest).
+      { destruct Hsuf as [pre ->]. exists (pre ++ [(u, b)]). rewrite <- app_assoc. reflexivity. }
+      assert (Hk' : (n + 1 <= k)%nat) by lia.
+      destruct (u <? vi).
+      { destruct (ccube k s m f rest) as [[[s1 m1] r]|] eqn:H1; [disc|]. intros _.
+        exact (IH k Hk' s m f rest (Nd vi ln tl th) u ltac:(cbn [height]; lia) HI HM Vf Hsuf' Hasc' H1). }
+      destruct (vi =? u).
+      { destruct b.
+        - destruct (ccube k s m (high_node s f) rest) as [[[s1 m1] r]|] eqn:H1; [disc|]. intros _.
+          exact (IH k Hk' s m (high_node s f) rest th u ltac:(lia) HI HM Vh Hsuf' Hasc' H1).
+        - destruct (ccube k s m (low_node s f) rest) as [[[s1 m1] r]|] eqn:H1; [disc|]. intros _.
+          exact (IH k Hk' s m (low_node s f) rest tl u ltac:(lia) HI HM Vl Hsuf' Hasc' H1). }
+      assert (Hasc0 : asc_cube lb ((u, b) :: rest)) by (split; assumption).
+      destruct (ccube k s m (low_node s f) ((u, b) :: rest)) as [[[s1 m1] l']|] eqn:H1;
+        [|intros _; exact (IH k Hk' s m (low_node s f) ((u, b) :: rest) tl lb ltac:(cbn [length]; lia) HI HM Vl Hsuf Hasc0 H1)].
+      destruct (ccube_ok c0 _ _ _ _ _ _ _ _ _ lb HI HM Vl Hsuf Hasc0 H1) as (HI1 & E1 & _ & HM1 & _).
+      assert (Eh : high_node s1 f = high_node s f).
+      { unfold high_node. destruct Vf as (HR & _). apply Rep_nd_inv in HR. destruct HR as (_ & l & h & Hc & _).
+        rewrite Hc, (E1 _ _ Hc). reflexivity. }
+      rewrite Eh.
+      destruct (ccube k s1 m1 (high_node s f) ((u, b) :: rest)) as [[[s2 m2] h']|] eqn:H2;
+        [|intros _; apply (Stops_back s s1 E1);
+          exact (IH k Hk' s1 m1 (high_node s f) ((u, b) :: rest) th lb ltac:(cbn [length]; lia) HI1 HM1 (V_ext _ _ _ _ E1 Vh) Hsuf Hasc0 H2)].
+      destruct (ccube_ok c0 _ _ _ _ _ _ _ _ _ lb HI1 HM1 (V_ext _ _ _ _ E1 Vh) Hsuf Hasc0 H2) as (HI2 & E2 & _).
+      destruct (mk_node s2 vi l' h') as [[s3 r3]|] eqn:Hmk; [disc|]. intros _.
+      apply (Stops_back s s2 (sext_trans _ _ _ E1 E2)). eapply mk_node_total; eauto.
+  Qed.
+
+  Theorem ccube_down c0 : forall n k, (n + 1 <= k)%nat -> forall s m f cube tf lb r,
+    (height tf + length cube <= n)%nat -> Inv s -> QMInv s c0 m -> V s f tf -> (exists pre, c0 = pre ++ cube) -> asc_cube lb cube ->
+    ccube (S k) s m f cube = Some r -> ccube k s m f cube = Some r.
+  Proof.
+    induction n as [|n IH]; intros k Hk s m f cube tf lb r Hm HI HM Vf Hsuf Hasc H; (destruct k as [|k]; [lia|]).
+    all: remember (S k) as k1 eqn:Ek1; cbn [ccube] in H; rewrite Ek1; cbn [ccube].
+    all: destruct cube as [|[u b] rest]; [exact H|].
+    - cbn [length] in Hm. lia.
+    - destruct (is_term f) eqn:F0; [exact H|].
+      assert (Hfn : idx f <> 1) by (unfold is_term in F0; rewrite term_idx in F0; now apply N.eqb_neq).
+      destruct tf as [|vi ln tl th]; [destruct (top_leaf _ _ HI Vf); contradiction|].
+      destruct (mget m (length ((u, b) :: rest), f)); [exact H|].
+      destruct (lh_ok _ _ _ _ _ _ HI Vf) as (Vl & Vh & Al & Ah & Hv0 & Ht & Sf). rewrite Ht in *.
+      cbn [height length] in Hm. destruct Hasc as [Hlu Hasc'].
+      assert (Hsuf' : exists pre, c0 = pre ++ rest).
+      { destruct Hsuf as [pre ->]. exists (pre ++ [(u, b)]). rewrite <- app_assoc. reflexivity. }
+      assert (Hk' : (n + 1 <= k)%nat) by lia.
+      destruct (u <? vi).
+      { destruct (ccube k1 s m f rest) as [[[s1 m1] r1]|] eqn:H1; [|discriminate H]. rewrite Ek1 in H1.
+        rewrite (IH k Hk' s m f rest (Nd vi ln tl th) u _ ltac:(cbn [height]; lia) HI HM Vf Hsuf' Hasc' H1). exact H. }
+      destruct (vi =? u).
+      { destruct b.
+        - destruct (ccube k1 s m (high_node s f) rest) as [[[s1 m1] r1]|] eqn:H1; [|discriminate H]. rewrite Ek1 in H1.
+          rewrite (IH k Hk' s m (high_node s f) rest th u _ ltac:(lia) HI HM Vh Hsuf' Hasc' H1). exact H.
+        - destruct (ccube k1 s m (low_node s f) rest) as [[[s1 m1] r1]|] eqn:H1; [|discriminate H]. rewrite Ek1 in H1.
+          rewrite (IH k Hk' s m (low_node s f) rest tl u _ ltac:(lia) HI HM Vl Hsuf' Hasc' H1). exact H. }
+      assert (Hasc0 : asc_cube lb ((u, b) :: rest)) by (split; assumption).
+      destruct (ccube k1 s m (low_node s f) ((u, b) :: rest)) as [[[s1 m1] l']|] eqn:H1; [|discriminate H]. rewrite Ek1 in H1.
+      rewrite (IH k Hk' s m (low_node s f) ((u, b) :: rest) tl lb _ ltac:(cbn [length]; lia) HI HM Vl Hsuf Hasc0 H1).
+      destruct (ccube_ok c0 _ _ _ _ _ _ _ _ _ lb HI HM Vl Hsuf Hasc0 H1) as (HI1 & E1 & _ & HM1 & _).
+      assert (Eh : high_node s1 f = high_node s f).
+      { unfold high_node. destruct Vf as (HR & _). apply Rep_nd_inv in HR. destruct HR as (_ & l & h & Hc & _).
+        rewrite Hc, (E1 _ _ Hc). reflexivity. }
+      rewrite Eh in *.
+      destruct (ccube k1 s1 m1 (high_node s f) ((u, b) :: rest)) as [[[s2 m2] h']|] eqn:H2; [|discriminate H]. rewrite Ek1 in H2.
+      rewrite (IH k Hk' s1 m1 (high_node s f) ((u, b) :: rest) th lb _ ltac:(cbn [length]; lia) HI1 HM1 (V_ext _ _ _ _ E1 Vh) Hsuf Hasc0 H2). exact H.
+  Qed.
+
+  (* ---------- n-ary folds and expression trees: sequences of ITE calls whose results stay within the same variable levels ---------- *)
+  Lemma ite_level L k s f g h tf tg th s' r : Inv s -> CInv s -> V s f tf -> V s g tg -> V s h th ->
+    allle L tf -> allle L tg -> allle L th -> ite k s f g h = Some (s', r) ->
+    Inv s' /\ CInv s' /\ sext s s' /\ exists tr, V s' r tr /\ allle L tr.
+  Proof.
+    intros HI HC Vf Vg Vh Lf Lg Lh E.
+    destruct (ite_ok _ _ _ _ _ _ _ _ _ _ HI HC E Vf Vg Vh) as (HI1 & HC1 & E1 & tr & Vr & _ & _ & Hvars).
+    splits; auto. exists tr. split; [exact Vr|]. apply tvars_to_allle. apply Hvars; apply allle_to_tvars; assumption.
+  Qed.
+  Theorem many_terminates (disj : bool) L k : (3 * N.to_nat (L + 1) + 3 <= k)%nat ->
+    forall l tts s acc tacc, Inv s -> CInv s -> V s acc tacc -> allle L tacc ->
+    Forall2 (fun x t => V s x t) l tts -> Forall (allle L) tts ->
+    (if disj then or_many k s acc l else and_many k s acc l) = None -> Stops s.
+  Proof.
+    intro Hk. induction l as [|x l IH]; intros tts s acc tacc HI HC Va La Hf Hl.
+    - destruct disj; cbn; disc.
+    - inversion Hf as [|? tx ? tts' Vx Hf']; subst. inversion Hl as [|? ? Lx Hl']; subst.
+      assert (Hstep : forall g h tg th, V s g tg -> V s h th -> allle L tg -> allle L th ->
+                (forall s1 a1, ite k s acc g h = Some (s1, a1) ->
+                   (if disj then or_many k s1 a1 l else and_many k s1 a1 l) = None -> Stops s) /\
+                (ite k s acc g h = None -> Stops s)).
+      { intros g h tg th Vg Vh Lg Lh. split.
+        - intros s1 a1 E H1. destruct (ite_level L k s acc g h tacc tg th s1 a1 HI HC Va Vg Vh La Lg Lh E) as (HI1 & HC1 & E1 & tr & Vr & Lr).
+          apply (Stops_back s s1 E1). apply (IH tts' s1 a1 tr HI1 HC1 Vr Lr); auto.
+          clear -Hf' E1. induction Hf' as [|a b la lb Hab _ IHf]; constructor; [eapply V_ext; eauto|exact IHf].
+        - exact (ite_terminates L (N.to_nat (L + 1)) k Hk s acc g h tacc tg th HI HC Va Vg Vh La Lg Lh (mu_le L tacc tg th)). }
+      destruct disj; cbn [or_many and_many]; unfold apply_or, apply_and.
+      + destruct (Hstep one x Leaf tx (V_one s) Vx I Lx) as [HS HN].
+        destruct (ite k s acc one x) as [[s1 a1]|] eqn:E; [exact (HS s1 a1 eq_refl)|intros _; exact (HN eq_refl)].
+      + destruct (Hstep x zero tx Leaf Vx (V_zero s) Lx I) as [HS HN].
+        destruct (ite k s acc x zero) as [[s1 a1]|] eqn:E; [exact (HS s1 a1 eq_refl)|intros _; exact (HN eq_refl)].
+  Qed.
+
+  Fixpoint terms_lev (s : st) (L : N) (x : expr) : Prop :=
+    match x with
+    | ETerm r => exists t, V s r t /\ allle L t
+    | ENot a => terms_lev s L a
+    | EAnd a b | EOr a b | EXor a b => terms_lev s L a /\ terms_lev s L b
+    end.
+  Lemma terms_lev_ext s s' L x : sext s s' -> terms_lev s L x -> terms_lev s' L x.
+  Proof. intro E. induction x; cbn; [intros (t & Vt & Lt); exists t; split; eauto using V_ext| |intuition|intuition|intuition]. assumption. Qed.
+  Theorem eval_terminates L k : (3 * N.to_nat (L + 1) + 3 <= k)%nat ->
+    forall x s, Inv s -> CInv s -> terms_lev s L x ->
+    match eval k s x with
+    | Some (s', r) => Inv s' /\ CInv s' /\ sext s s' /\ exists tr, V s' r tr /\ allle L tr
+    | None => Stops s
+    end.
+  Proof.
+    intro Hk.
+    assert (Bin : forall a b (op : nat -> st -> ref -> ref -> option (st * ref)),
+      (forall s u v tu tv, Inv s -> CInv s -> V s u tu -> V s v tv -> allle L tu -> allle L tv ->
+         match op k s u v with Some (s', r) => Inv s' /\ CInv s' /\ sext s s' /\ exists tr, V s' r tr /\ allle L tr | None => Stops s end) ->
+      (forall s, Inv s -> CInv s -> terms_lev s L a -> match eval k s a with Some (s', r) => Inv s' /\ CInv s' /\ sext s s' /\ exists tr, V s' r tr /\ allle L tr | None => Stops s end) ->
+      (forall s, Inv s -> CInv s -> terms_lev s L b -> match eval k s b with Some (s', r) => Inv s' /\ CInv s' /\ sext s s' /\ exists tr, V s' r tr /\ allle L tr | None => Stops s end) ->
+      forall s, Inv s -> CInv s -> terms_lev s L a -> terms_lev s L b ->
+      match (match eval k s a with None => None | Some (s1, ra) => match eval k s1 b with None => None | Some (s2, rb) => op k s2 ra rb end end) with
+      | Some (s', r) => Inv s' /\ CInv s' /\ sext s s' /\ exists tr, V s' r tr /\ allle L tr | None => Stops s end).
+    { intros a b op Hop IHa IHb s HI HC Ta Tb.
+      specialize (IHa s HI HC Ta). destruct (eval k s a) as [[s1 ra]|]; [|exact IHa].
+      destruct IHa as (HI1 & HC1 & E1 & ta & Va & La).
+      specialize (IHb s1 HI1 HC1 (terms_lev_ext _ _ _ _ E1 Tb)). destruct (eval k s1 b) as [[s2 rb]|]; [|exact (Stops_back s s1 E1 IHb)].
+      destruct IHb as (HI2 & HC2 & E2 & tb & Vb & Lb).
+      specialize (Hop s2 ra rb ta tb HI2 HC2 (V_ext _ _ _ _ E2 Va) Vb La Lb).
+      destruct (op k s2 ra rb) as [[s3 r]|].
+      - destruct Hop as (HI3 & HC3 & E3 & tr & Vr & Lr). splits; auto; [eauto using sext_trans|]. exists tr. auto.
+      - exact (Stops_back s s2 (sext_trans _ _ _ E1 E2) Hop). }
+    induction x as [t|a IHa|a IHa b IHb|a IHa b IHb|a IHa b IHb]; intros s HI HC HT; cbn [eval].
+    - destruct HT as (tr & Vt & Lt). splits; auto using sext_refl. exists tr. auto.
+    - specialize (IHa s HI HC HT). destruct (eval k s a) as [[s1 r]|]; [|exact IHa].
+      destruct IHa as (HI1 & HC1 & E1 & tr & Vr & Lr). splits; auto. exists tr. split; [apply V_neg; exact Vr|exact Lr].
+    - destruct HT as [Ta Tb]. apply (Bin a b apply_and); auto.
+      intros s0 u v tu tv HI0 HC0 Vu Vv Lu Lv. unfold apply_and.
+      destruct (ite k s0 u v zero) as [[s' r]|] eqn:E.
+      + exact (ite_level L k s0 u v zero tu tv Leaf s' r HI0 HC0 Vu Vv (V_zero _) Lu Lv I E).
+      + exact (ite_terminates L (N.to_nat (L + 1)) k Hk s0 u v zero tu tv Leaf HI0 HC0 Vu Vv (V_zero _) Lu Lv I (mu_le L tu tv Leaf) E).
+    - destruct HT as [Ta Tb]. apply (Bin a b apply_or); auto.
+      intros s0 u v tu tv HI0 HC0 Vu Vv Lu Lv. unfold apply_or.
+      destruct (ite k s0 u one v) as [[s' r]|] eqn:E.
+      + exact (ite_level L k s0 u one v tu Leaf tv s' r HI0 HC0 Vu (V_one _) Vv Lu I Lv E).
+      + exact (ite_terminates L (N.to_nat (L + 1)) k Hk s0 u one v tu Leaf tv HI0 HC0 Vu (V_one _) Vv Lu I Lv (mu_le L tu Leaf tv) E).
+    - destruct HT as [Ta Tb]. apply (Bin a b apply_xor); auto.
+      intros s0 u v tu tv HI0 HC0 Vu Vv Lu Lv. unfold apply_xor.
+      destruct (ite k s0 u (rneg v) v) as [[s' r]|] eqn:E.
+      + exact (ite_level L k s0 u (rneg v) v tu tv tv s' r HI0 HC0 Vu (V_neg _ _ _ Vv) Vv Lu Lv Lv E).
+      + exact (ite_terminates L (N.to_nat (L + 1)) k Hk s0 u (rneg v) v tu tv tv HI0 HC0 Vu (V_neg _ _ _ Vv) Vv Lu Lv Lv (mu_le L tu tv tv) E).
+  Qed.
+
+  Theorem many_down (disj : bool) L k : (3 * N.to_nat (L + 1) + 3 <= k)%nat ->
+    forall l tts s acc tacc r, Inv s -> CInv s -> V s acc tacc -> allle L tacc ->
+    Forall2 (fun x t => V s x t) l tts -> Forall (allle L) tts ->
+    (if disj then or_many (S k) s acc l else and_many (S k) s acc l) = Some r ->
+    (if disj then or_many k s acc l else and_many k s acc l) = Some r.
+  Proof.
+    intro Hk. induction l as [|x l IH]; intros tts s acc tacc r HI HC Va La Hf Hl H.
+    - destruct disj; exact H.
+    - inversion Hf as [|? tx ? tts' Vx Hf']; subst. inversion Hl as [|? ? Lx Hl']; subst.
+      assert (Hstep : forall g h tg th s1 a1, V s g tg -> V s h th -> allle L tg -> allle L th ->
+                ite (S k) s acc g h = Some (s1, a1) ->
+                ite k s acc g h = Some (s1, a1) /\
+                ((if disj then or_many (S k) s1 a1 l else and_many (S k) s1 a1 l) = Some r ->
+                 (if disj then or_many k s1 a1 l else and_many k s1 a1 l) = Some r)).
+      { intros g h tg th s1 a1 Vg Vh Lg Lh E. split.
+        - exact (ite_down L (N.to_nat (L + 1)) k Hk s acc g h tacc tg th (s1, a1) HI HC Va Vg Vh La Lg Lh (mu_le L tacc tg th) E).
+        - destruct (ite_level L (S k) s acc g h tacc tg th s1 a1 HI HC Va Vg Vh La Lg Lh E) as (HI1 & HC1 & E1 & tr & Vr & Lr).
+          apply (IH tts' s1 a1 tr r HI1 HC1 Vr Lr); auto.
+          clear -Hf' E1. induction Hf' as [|a b la lb Hab _ IHf]; constructor; [eapply V_ext; eauto|exact IHf]. }
+      destruct disj; cbn [or_many and_many] in H |- *; unfold apply_or, apply_and in *.
+      + destruct (ite (S k) s acc one x) as [[s1 a1]|] eqn:E; [|discriminate H].
+        destruct (Hstep one x Leaf tx s1 a1 (V_one s) Vx I Lx E) as [E' Hrec]. rewrite E'. exact (Hrec H).
+      + destruct (ite (S k) s acc x zero) as [[s1 a1]|] eqn:E; [|discriminate H].
+        destruct (Hstep x zero tx Leaf s1 a1 Vx (V_zero s) Lx I E) as [E' Hrec]. rewrite E'. exact (Hrec H).
+  Qed.
+  Theorem eval_down L k : (3 * N.to_nat (L + 1) + 3 <= k)%nat ->
+    forall x s r, Inv s -> CInv s -> terms_lev s L x -> eval (S k) s x = Some r -> eval k s x = Some r.
+  Proof.
+    intro Hk.
+    assert (Hk1 : (3 * N.to_nat (L + 1) + 3 <= S k)%nat) by lia.
+    induction x as [t|a IHa|a IHa b IHb|a IHa b IHb|a IHa b IHb]; intros s r HI HC HT H; cbn [eval] in H |- *.
+    - exact H.
+    - destruct (eval (S k) s a) as [[s1 r1]|] eqn:E; [|discriminate H]. rewrite (IHa s _ HI HC HT E). exact H.
+    - destruct HT as [Ta Tb].
+      destruct (eval (S k) s a) as [[s1 ra]|] eqn:Ea; [|discriminate H]. rewrite (IHa s _ HI HC Ta Ea).
+      pose proof (eval_terminates L (S k) Hk1 a s HI HC Ta) as Pa. rewrite Ea in Pa. destruct Pa as (HI1 & HC1 & E1 & ta & Va & La).
+      destruct (eval (S k) s1 b) as [[s2 rb]|] eqn:Eb; [|discriminate H]. rewrite (IHb s1 _ HI1 HC1 (terms_lev_ext _ _ _ _ E1 Tb) Eb).
+      pose proof (eval_terminates L (S k) Hk1 b s1 HI1 HC1 (terms_lev_ext _ _ _ _ E1 Tb)) as Pb. rewrite Eb in Pb. destruct Pb as (HI2 & HC2 & E2 & tb & Vb & Lb).
+      unfold apply_and in *. destruct r as [s3 r3].
+      exact (ite_down L (N.to_nat (L + 1)) k Hk s2 ra rb zero ta tb Leaf (s3, r3) HI2 HC2 (V_ext _ _ _ _ E2 Va) Vb (V_zero _) La Lb I (mu_le L ta tb Leaf) H).
+    - destruct HT as [Ta Tb].
+      destruct (eval (S k) s a) as [[s1 ra]|] eqn:Ea; [|discriminate H]. rewrite (IHa s _ HI HC Ta Ea).
+      pose proof (eval_terminates L (S k) Hk1 a s HI HC Ta) as Pa. rewrite Ea in Pa. destruct Pa as (HI1 & HC1 & E1 & ta & Va & La).
+      destruct (eval (S k) s1 b) as [[s2 rb]|] eqn:Eb; [|discriminate H]. rewrite (IHb s1 _ HI1 HC1 (terms_lev_ext _ _ _ _ E1 Tb) Eb).
+      pose proof (eval_terminates L (S k) Hk1 b s1 HI1 HC1 (terms_lev_ext _ _ _ _ E1 Tb)) as Pb. rewrite Eb in Pb. destruct Pb as (HI2 & HC2 & E2 & tb & Vb & Lb).
+      unfold apply_or in *. destruct r as [s3 r3].
+      exact (ite_down L (N.to_nat (L + 1)) k Hk s2 ra one rb ta Leaf tb (s3, r3) HI2 HC2 (V_ext _ _ _ _ E2 Va) (V_one _) Vb La I Lb (mu_le L ta Leaf tb) H).
+    - destruct HT as [Ta Tb].
+      destruct (eval (S k) s a) as [[s1 ra]|] eqn:Ea; [|discriminate H]. rewrite (IHa s _ HI HC Ta Ea).
+      pose proof (eval_terminates L (S k) Hk1 a s HI HC Ta) as Pa. rewrite Ea in Pa. destruct Pa as (HI1 & HC1 & E1 & ta & Va & La).
+      destruct (eval (S k) s1 b) as [[s2 rb]|] eqn:Eb; [|discriminate H]. rewrite (IHb s1 _ HI1 HC1 (terms_lev_ext _ _ _ _ E1 Tb) Eb).
+      pose proof (eval_terminates L (S k) Hk1 b s1 HI1 HC1 (terms_lev_ext _ _ _ _ E1 Tb)) as Pb. rewrite Eb in Pb. destruct Pb as (HI2 & HC2 & E2 & tb & Vb & Lb).
+      unfold apply_xor in *. destruct r as [s3 r3].
+      exact (ite_down L (N.to_nat (L + 1)) k Hk s2 ra (rneg rb) rb ta tb tb (s3, r3) HI2 HC2 (V_ext _ _ _ _ E2 Va) (V_neg _ _ _ Vb) Vb La Lb Lb (mu_le L ta tb tb) H).
+  Qed.
+
+  (* ---------- constructors: cube / clause stop only when a put fails ---------- *)
+  Lemma build_stops cl : forall l lb s, Inv s -> CInv s -> asc_lits lb l -> build cl s l = None -> Stops s.
+  Proof.
+    induction l as [|[v b] rest IH]; intros lb s HI HC Hasc; cbn [build]; [disc|].
+    destruct Hasc as [Hv Hasc'].
+    destruct (build cl s rest) as [[s1 cur]|] eqn:B; [|intros _; exact (IH v s HI HC Hasc' B)].
+    destruct (build_ok cl rest v s s1 cur HI HC Hasc' B) as (HI1 & _ & E1 & _).
+    intro Mk. apply (Stops_back s s1 E1).
+    destruct cl, b; eapply mk_node_total; eauto.
+  Qed.
 End Term2.
